@@ -7,6 +7,7 @@ mod cache;
 mod crash;
 mod dedup;
 mod sess;
+mod sf;
 mod shard;
 mod xorb;
 
@@ -55,6 +56,7 @@ fn main() {
             "dd" => dedup::run(&toks[1..]),
             "cache" => cache::run(&toks[1..]),
             "crash" => crash::run(&toks[1..]),
+            "sf" => sf::run(&toks[1..]),
             "sess" => sess::run(&toks[1..]),
             "c07" => xorb::run_c07(&toks[1..]),
             "c07prep" => xorb::prep_c07(&toks[1..]),
